@@ -1,8 +1,15 @@
 (* Extraction of the executable model to OCaml (ExtrOcamlBasic only;
    Z, positive, nat stay Coq datatypes; no Extract Constant). *)
 From Coq Require Import Extraction ExtrOcamlBasic.
-From SSL.Model Require Import Base Ty Float Value Ops Seq Syntax Rt Recreate Exec Check Top Peg.
+From SSL.Model Require Import Base Ty Float Value Ops Seq Syntax Rt Recreate Exec Check Top Peg Front.
 From SSL.Gen Require Import GenGrammar.
+(* M7 Print + its own minimal readers (tp_ / vp_ / pr_ prefixes) *)
+From SSL.Model Require Import Print TypeParse ValueParse.
+From SSL.Gen Require Import GenStdlib.
+From SSL.Model Require Import Stdlib.
+(* C14: the generic Pratt model and the regenerated table (qualified: Front has its own pratt_parse) *)
+From SSL.Model Require Pratt.
+From SSL.Gen Require GenPratt.
 Extraction Blacklist List String Int.
 Extraction "model.ml"
   ident_eqb all2 assoc wrap64 in_i64b
@@ -16,4 +23,11 @@ Extraction "model.ml"
   add_return_type
   len_exec at_exec slyce_indices py_slice slice_exec
   rt recreate exec check_x check_s check_lines parse_top run_code code_rt mkPrelude mkReducers mkStore mkClosure mkLayer
-  peg_run fuel_for parse_rule grammar rule_names.
+  peg_run fuel_for parse_rule grammar rule_names
+  text_of ty_of_tree param_of_tree value_of_tree unescape pratt_parse pratt_info
+  parse_program parse_program_eager parse_program_with parse_type_str parse_value_str front_reject_name
+  stdlib_exports typeof_table type_of_rty param_accepts conv_accepts demand_accepts const_value
+  std_eval ints_of
+  Pratt.pratt_run Pratt.tlookup Pratt.table_of_levels GenPratt.pratt_levels GenPratt.op_names
+  print_ty print_i64 print_nat print_radix parse_decimal read_int_text escape_debug_rust debug_string debug_val display_val
+  tp_parse_type pr_unescape vp_parse_value.
